@@ -2,7 +2,7 @@
    requested attributes and character set.  Statements only; proofs are in
    P_*.v.  Tie lemmas (Tie_Output, Tie_Charset) are required so that the model's
    constants are re-checked against the headers whenever this file is built. *)
-From TP Require Import Base Elem Term VT Oracle P_Sync P_Step P_Bytes P_Run P_Link Tie_Output Tie_Charset.
+From TP Require Import Base Elem Term VT Oracle P_Sync P_Step P_Bytes P_Run P_Link P_OracleSound Tie_Output Tie_Charset.
 Local Open Scope N_scope.
 
 (* For every behaviour, every reference terminal configuration compatible with
@@ -51,6 +51,21 @@ Proof.
   exact (proj1 (sync_hrun cfg beh Huni h init_tstate v0 (sync_init beh v0 H0) Hwf)).
 Qed.
 Print Assumptions C01_oracle_clause_101.
+
+(* no false alarm from the extracted oracle: on the observations (bytes and
+   reported state) the MODEL produces for any well-formed history of operations
+   and size changes, from any initial terminal at rest, under any policy by
+   which the terminal adopts a cursor position at a size change, the oracle run
+   by the checks reports nothing - none of the clauses 101, 102, 103, 201, 801,
+   901, 1101, 1301, 1701.  With the byte-exact correspondence between model
+   and implementation this is why the oracle is silent on code that behaves
+   like the model. *)
+Theorem C01_oracle_silent_on_model :
+  forall cfg beh adopt, (b_unicode_all beh = true -> unicode_all cfg = true) ->
+  forall v0 ops, vt0_ok v0 -> wf_ops beh init_tstate ops ->
+    oracle_run cfg beh adopt true v0 (model_hist beh init_tstate ops) = [].
+Proof. exact oracle_run_sound. Qed.
+Print Assumptions C01_oracle_silent_on_model.
 
 (* non-vacuity: a concrete history that satisfies the hypotheses and exercises
    charset, UTF-8, colours, blink, erase and a size change *)
